@@ -654,11 +654,13 @@ class NCCHReader(TypeReaderCryptoBase):
                         ncch_array[0x18B] = 0
                         ncch_array[0x18F] = 4
                         new_data = bytes(ncch_array)
-                    if is_start:
-                        new_data = new_data[cut_start:]
-                        is_start = False
+                    # the end is trimmed relative to the planned length of the piece, not to what was read: a last chunk
+                    #   that the end of the file cuts short must not lose bytes it really has
+                    end = info[1]
                     if region == last_region and cut_end != 0x200:
-                        new_data = new_data[:-cut_end]
+                        end -= cut_end
+                    new_data = new_data[cut_start if is_start else 0:end]
+                    is_start = False
 
                     yield new_data
 
